@@ -59,6 +59,9 @@ type resRun struct {
 	ent     ecs.Entity
 	entOps  int
 	late    bool
+	gA      generic.Resource[resA]
+	gB      generic.Resource[resB]
+	gC      generic.Resource[resC]
 	q       *ecs.Query
 	outcome string
 	dead    bool
@@ -77,6 +80,8 @@ func (c *resCfg) New() wx.Run {
 	r.ids[1] = ecs.ResourceID[resB](&r.w)
 	r.ids[2] = ecs.ResourceID[resC](&r.w)
 	r.ptrs = [3][2]interface{}{{&resA{1}, &resA{2}}, {&resB{}, &resB{V: [2]int64{1, 2}}}, {&resC{}, &resC{}}}
+	// the generic mappers live as long as the world (as systems keep them), also across Reset
+	r.gA, r.gB, r.gC = generic.NewResource[resA](&r.w), generic.NewResource[resB](&r.w), generic.NewResource[resC](&r.w)
 	return r
 }
 
@@ -145,14 +150,11 @@ func (r *resRun) Apply(op wx.Op) wx.Result {
 			case 1:
 				switch t {
 				case 0:
-					g := generic.NewResource[resA](w)
-					g.Add(ptr.(*resA))
+					r.gA.Add(ptr.(*resA))
 				case 1:
-					g := generic.NewResource[resB](w)
-					g.Add(ptr.(*resB))
+					r.gB.Add(ptr.(*resB))
 				default:
-					g := generic.NewResource[resC](w)
-					g.Add(ptr.(*resC))
+					r.gC.Add(ptr.(*resC))
 				}
 			default:
 				var id ecs.ResID
@@ -189,14 +191,11 @@ func (r *resRun) Apply(op wx.Op) wx.Result {
 			}
 			switch t {
 			case 0:
-				g := generic.NewResource[resA](w)
-				g.Remove()
+				r.gA.Remove()
 			case 1:
-				g := generic.NewResource[resB](w)
-				g.Remove()
+				r.gB.Remove()
 			default:
-				g := generic.NewResource[resC](w)
-				g.Remove()
+				r.gC.Remove()
 			}
 		})
 		if r.present[t] == 0 {
@@ -292,36 +291,45 @@ func (r *resRun) Check() *wx.Failure {
 			return bad("res:get-pointer", fmt.Sprintf("Resources.Get(%s) does not return the pointer that was added", tn))
 		}
 		// generic.Resource and ecs.GetResource
-		var g1, g2 interface{}
+		var g1, g2, g3 interface{}
 		var has bool
 		pv := catchP(func() {
 			switch t {
 			case 0:
 				g := generic.NewResource[resA](w)
-				has = g.Has()
+				has = g.Has() && r.gA.Has()
 				if p := g.Get(); p != nil {
 					g1 = p
 				}
 				if p := ecs.GetResource[resA](w); p != nil {
 					g2 = p
 				}
+				if p := r.gA.Get(); p != nil {
+					g3 = p
+				}
 			case 1:
 				g := generic.NewResource[resB](w)
-				has = g.Has()
+				has = g.Has() && r.gB.Has()
 				if p := g.Get(); p != nil {
 					g1 = p
 				}
 				if p := ecs.GetResource[resB](w); p != nil {
 					g2 = p
 				}
+				if p := r.gB.Get(); p != nil {
+					g3 = p
+				}
 			default:
 				g := generic.NewResource[resC](w)
-				has = g.Has()
+				has = g.Has() && r.gC.Has()
 				if p := g.Get(); p != nil {
 					g1 = p
 				}
 				if p := ecs.GetResource[resC](w); p != nil {
 					g2 = p
+				}
+				if p := r.gC.Get(); p != nil {
+					g3 = p
 				}
 			}
 		})
@@ -337,6 +345,9 @@ func (r *resRun) Check() *wx.Failure {
 		}
 		if g1 != want || g2 != want {
 			return bad("res:generic-get", fmt.Sprintf("generic.Resource.Get / ecs.GetResource(%s) do not return the added pointer (or nil when absent)", tn))
+		}
+		if g3 != want {
+			return bad("res:generic-get-stale", fmt.Sprintf("a generic.Resource mapper for %s that was created earlier does not return the pointer that is stored now (or nil when absent)", tn))
 		}
 	}
 	if w.IsLocked() != (r.q != nil) {
